@@ -67,6 +67,42 @@ def has_seq_function(v):
     return False
 
 
+def non_denotable(v):
+    """the representation holds a function in which two keys that TLA+ identifies (a tuple and the function with the
+    same graph over 1..n, at any depth) carry different values: no TLA+ value corresponds to it, and neither this
+    reference nor Base/Ops.v says anything about it (TLC: (<<>> :> 2) @@ ([x \\in {} |-> x] :> 3) = (<<>> :> 2))"""
+    t = v[0]
+    if t == "W":
+        return non_denotable(v[2] if len(v) > 2 else v[1])
+    if t in ("S", "T"):
+        return any(non_denotable(x) for x in v[1])
+    if t == "F":
+        if any(non_denotable(k) or non_denotable(x) for k, x in v[1]):
+            return True
+        byrep, bynorm = {}, {}
+        for k, x in v[1]:
+            byrep[norm(k, False)] = norm(x, True)       # what the runtime holds (later bindings of an Equal key win)
+        for k, x in byrep.items():
+            nk = norm_again(k)
+            if nk in bynorm and bynorm[nk] != x:
+                return True
+            bynorm[nk] = x
+        return False
+    return False
+
+
+def norm_again(x):
+    """identify tuples and 1..n-functions in a semantic value computed without the identification"""
+    t = x[0]
+    if t == "S":
+        return ("S", frozenset(norm_again(e) for e in x[1]))
+    if t == "T":
+        return ("T", tuple(norm_again(e) for e in x[1]))
+    if t == "F":
+        return mkfun([(norm_again(k), norm_again(v)) for k, v in x[1]], True)
+    return x
+
+
 def kind(x):
     return x[0]
 
@@ -181,6 +217,12 @@ class Sem:
 
     # ---------------- operators; returns ("ok", v) | ("okstr",) | ("member", frozenset) | ("oneof", set of outcomes)
     def apply(self, opname, wire_args, fn=None, subs=None):
+        if self.ident:
+            consts = [fn[1]] if fn and len(fn) > 1 else []
+            for sb in (subs or []):
+                consts += list(sb["keys"]) + ([sb["val"][1]] if len(sb["val"]) > 1 else [])
+            if any(non_denotable(a) for a in list(wire_args) + consts):
+                raise Unknown("an argument is not a TLA+ value (a function with two identified keys carrying different values)")
         args = [norm(a, self.ident) for a in wire_args]
         try:
             if opname in ("Forall", "Exists"):
